@@ -503,6 +503,11 @@ func (env *c18Env) run(s c18Scenario) (*c18Run, error) {
 	}
 	logp := filepath.Join(root, "log")
 	args := []string{"-f", "-y", "-s", "0", "-e", "trace=" + c18TraceSet, "-o", logp}
+	if s.Fault.Kind != "kill" {
+		// stop the tracee only at the traced calls (much cheaper: the Go runtime makes hundreds of other
+		// calls at start-up); not usable for kill runs: signal injection does not work under seccomp-bpf
+		args = append([]string{"--seccomp-bpf"}, args...)
+	}
 	switch s.Fault.Kind {
 	case "kill":
 		args = append(args, "-e", fmt.Sprintf("inject=%s:signal=SIGKILL:when=%d", s.Fault.Syscall, s.Fault.When))
@@ -1090,7 +1095,7 @@ func runC18(cfg Config, r *Result) {
 	files := c18FixedFiles()
 	nFaultFiles := cfg.N(4, 30)
 	nCheckFault := cfg.N(1, 6)
-	nGen := cfg.N(10, 300)
+	nGen := cfg.N(6, 300)
 	if v, err := strconv.Atoi(os.Getenv("C18_NFAULT")); err == nil { // knobs for sanity-testing the check itself
 		nFaultFiles = v
 	}
@@ -1213,7 +1218,7 @@ func runC18(cfg Config, r *Result) {
 			plain(c18Scenario{File: f, Cmd: "write", Fault: c18Fault{Kind: "none"}}, o)
 			plain(c18Scenario{File: f, Cmd: "check", Fault: c18Fault{Kind: "none"}}, o)
 		}
-		if fi < 4 || (fi >= nFixed && fi%4 == 0) {
+		if fi < cfg.N(2, 4) || (fi >= nFixed && fi%4 == 0) {
 			plain(c18Scenario{File: f, Cmd: "plain", Fault: c18Fault{Kind: "none"}}, o)
 		}
 		if f.Label == "large" {
